@@ -416,6 +416,9 @@ template<typename K> void run_task(Run &run, Cn &cn, int prop, const Task &t) {
             if (w == t.w_lo + 9) run.sample(ck.case_of("family=" + s.str(), t.eps, "par"));
             ck.family(s, t.eps, w % 16 == 0);
         }
+    } else if (t.kind == 7) {
+        // hashed irregular keys for every n in a window
+        for (long n = t.w_lo; n < t.w_hi && !run.deadline_passed(); ++n) { ks::FamilySpec s; s.kind = "irr"; s.chunks = 1; s.rep = n; s.word = n % 5; ck.family(s, t.eps, n % 4 == 0); }
     } else if (t.kind == 6) {
         // two runs meeting just before a chunk end (see keyspace.hpp)
         for (long a : {1L, 2L, 3L}) for (long L : {1L, long(t.eps) + 1, 2 * long(t.eps) + 2, 200L}) for (long so : {-1L, 0L, 1L, 50L}) {
@@ -528,6 +531,8 @@ int main(int argc, char **argv) {
             // smooth convex / concave data, epsilon 1024: segments of more than 2^16 points whose hulls keep every point
             // (C03 only: the exact feasibility oracle of C04 is quadratic on hulls of this size)
             if (k == 6 && prop == 3) for (long shape : {0L, 1L}) for (long pp : (thorough ? std::vector<long>{1, 4} : std::vector<long>{1})) { Task t; t.key = k; t.kind = 5; t.eps = 1024; t.n = thorough ? 2500000 : 1500000; t.p = pp; t.seam = shape; t.w_lo = 1; tasks.push_back(t); }   // from the origin: segment lengths grow from a few thousand to more than 2^17 points
+            // hashed irregular keys (duplicates, power-of-two gaps, jumps) for every n in 9..400
+            for (size_t e : std::vector<size_t>{1, 2, 8}) for (long n0 = 9; n0 < (thorough ? 1000 : 400); n0 += 49) { Task t; t.key = k; t.kind = 7; t.eps = e; t.w_lo = n0; t.w_hi = std::min<long>(n0 + 49, thorough ? 1000 : 400); tasks.push_back(t); }
             // two runs meeting just before a chunk end
             for (long pp : (thorough ? std::vector<long>{2, 3, 5, 20} : std::vector<long>{2, 20})) for (long j : {0L, pp - 2}) { Task t; t.key = k; t.kind = 6; t.eps = 1; t.n = 32768; t.p = pp; t.seam = j; tasks.push_back(t); }
             // a history of builds with changing thread counts inside one process
@@ -571,7 +576,7 @@ int main(int argc, char **argv) {
     ev.states_counter = "arrays_segmented"; ev.transitions_counter = prop == 3 ? "point_vs_line_checks" : "maximality_checks_against_exact_oracle";
     ev.nontrivial_counter = "arrays_with_2plus_distinct_keys";
     ev.rule = std::string("every non-decreasing key sequence of length 1..") + std::to_string(N) + " over each 10-value palette, key types u32/i32/u64/i64/u8/i16/long long/unsigned long long" + (prop == 3 ? "/float/double" : "") +
-              ", epsilon 0..3, fed to make_segmentation; seam-window family (n=2^15(+delta), all 4096 six-letter words over {dup,+1,+2,+65536} at every chunk seam) smooth convex and concave key sets (i^2 and sqrt-shaped, 1.5 million keys) with epsilon 1024 (segments of more than 2^16 points); seam-window members through make_segmentation_par with the chunk count answered by the harness (also as a history 8,1,2,20,3,8,1 of thread counts inside one process; processors = threads, more threads than processors, fewer threads than processors: c = min of the two); block grammar (1 block x rep, 2 blocks) for epsilon in {1,8,64" + (thorough ? ",1024" : "") + "}. " +
+              ", epsilon 0..3, fed to make_segmentation; seam-window family (n=2^15(+delta), all 4096 six-letter words over {dup,+1,+2,+65536} at every chunk seam) hashed irregular keys for every n in 9..400, epsilon 1/2/8; smooth convex and concave key sets (i^2 and sqrt-shaped, 1.5 million keys) with epsilon 1024 (segments of more than 2^16 points); seam-window members through make_segmentation_par with the chunk count answered by the harness (also as a history 8,1,2,20,3,8,1 of thread counts inside one process; processors = threads, more threads than processors, fewer threads than processors: c = min of the two); block grammar (1 block x rep, 2 blocks) for epsilon in {1,8,64" + (thorough ? ",1024" : "") + "}. " +
               (prop == 3 ? "Each point recorded by hook H1 is evaluated against the line reported for its segment (exact 128-bit rational arithmetic for integer keys, long double + stated tolerance for floating keys). "
                          : "Each builder call's partition is compared with the greedy partition computed by an exact rational stabbing-line oracle (pairwise slope bounds), plus the optimum count, the 2*epsilon spacing of segment starts, and every upper-level call inside PGMIndex builds. ") +
               "State = one segmented array; transition = one point checked; non-trivial = at least two distinct keys.";
